@@ -128,6 +128,9 @@ func runC08(c Case, st *Stats) error {
 					interesting = true
 				}
 			}
+		case "clock":
+			setClock(s.T)
+			classes = append(classes, "virtual-clock")
 		case "reopen":
 			if err := check(i); err != nil {
 				if err == errSkip {
@@ -149,6 +152,6 @@ func init() { register("C08", runC08) }
 
 func TestC08(t *testing.T) {
 	p := mixedParams{Modes: []int{0, 0, 1, 2}, Segs: []int64{200, 333, 1024, 8192}, Buckets: []string{"b", "bb", "c", ""},
-		MinB: 1, MaxB: 3, MaxSteps: 25, MaxOps: 4, ReopenPct: 15, Structs: true, ReadsInTx: true, Fill: true, LongBigSeg: true}
+		MinB: 1, MaxB: 3, MaxSteps: 25, MaxOps: 4, ReopenPct: 15, Structs: true, ReadsInTx: true, Fill: true, LongBigSeg: true, ClockPct: 20}
 	runProperty(t, "C08", genMixedCase(p), runC08)
 }
